@@ -12,7 +12,7 @@ from ..ref import Graph
 
 LEVEL = "exploration"
 RULE = ("MazeDatasetCollection built from member datasets with prescribed lengths: exhaustively every length vector in {0,1,2}^k for "
-        "k<=5 (363 vectors) plus random vectors (k<=8, lengths<=6, zeros at start/middle/end and repeated) plus members of 126..300 mazes (cumulative lengths past 127/255; thorough: 33000), member grid sizes equal "
+        "k<=5 (363 vectors) plus random vectors (k<=8, lengths<=6, zeros at start/middle/end and repeated) plus members of 126..300 mazes (cumulative lengths past 127/255; thorough: 33000), member names unique or shared, member grid sizes equal "
         "and different; for every index 0<=i<len (and again in random order) the item must be *the very object* (is) at position i of the concatenation; len, "
         ".mazes, .dataset_lengths and .cfg.n_mazes must agree. "
         "non-trivial & distinct = distinct length vectors with >= 2 non-empty members and >= 1 empty member")
@@ -21,7 +21,7 @@ EXHAUSTIVE = {"quick": False, "thorough": False}
 NSHARDS = {"quick": 16, "thorough": 16}
 THRESHOLDS = {"quick": {"c16:collections": 800, "c16:index-checks": 3000, "c16:vec-exhaustive": 363, "c16:zero-first": 50,
                         "c16:zero-middle": 50, "c16:zero-last": 50, "c16:repeated-zeros": 50, "c16:mixed-grid": 100,
-                        "c16:np-int-index": 300, "c16:long-members": 30, "c16:index-checks-second-pass": 2000}}
+                        "c16:np-int-index": 300, "c16:long-members": 30, "c16:shared-member-names": 60, "c16:index-checks-second-pass": 2000}}
 THRESHOLDS["thorough"] = dict(THRESHOLDS["quick"])
 ANCHORS = ["maze_dataset.dataset.collected_dataset:MazeDatasetCollection.__getitem__",
            "maze_dataset.dataset.collected_dataset:MazeDatasetCollection.__len__",
@@ -50,8 +50,12 @@ def check_vector(ctx, lengths, grids, rng, tag):
     with ctx.guard("C16/construct", case), warnings.catch_warnings():
         warnings.simplefilter("ignore")
         members = []
+        shared = tag != "exh" and len(lengths) >= 2 and int(rng.integers(4)) == 0
+        if shared:
+            ctx.tally("c16:shared-member-names")
         for j, (L, n) in enumerate(zip(lengths, grids)):
-            cfg = MazeDatasetConfig(name=f"m{j}", grid_n=n, n_mazes=L)
+            # member names need not be unique: every fourth random collection has members that share a name
+            cfg = MazeDatasetConfig(name=("m" if shared and j % 3 != 2 else f"m{j}"), grid_n=n, n_mazes=L)
             members.append(MazeDataset(cfg, [_maze(n, rng) for _ in range(L)]))
         ccfg = MazeDatasetCollectionConfig(name="col", maze_dataset_configs=[m.cfg for m in members])
         col = MazeDatasetCollection(ccfg, members)
